@@ -2,7 +2,9 @@
 //! Kani harnesses over `emit` built with no features.
 //! Naming: `cNN_q_*` quick+thorough, `cNN_t_*` thorough only, `cNN_w_*` mutant twin (must FAIL).
 
+#[path = "../../common/util.rs"]
 pub mod util;
+#[path = "../../common/env.rs"]
 pub mod env;
 #[cfg(kani)]
 pub mod c05_span;
@@ -14,3 +16,5 @@ pub mod c17_level;
 pub mod c03_frames;
 #[cfg(kani)]
 pub mod c04_trace;
+#[cfg(kani)]
+pub mod c19_capture;
